@@ -181,6 +181,7 @@ func runC12(c *CaseCtx) {
 	}
 	nsteps := 12 + r.Intn(tier(c.Tier, 14, 30))
 	mergeSoon := false // an I/O fault has just left records of a failed commit in the log
+	mergeNow := false  // ... and nothing has been committed over them
 	faultKinds := map[string]bool{}
 	noEffect := func(label string) bool {
 		if !run.CheckObs(label) {
@@ -195,8 +196,8 @@ func runC12(c *CaseCtx) {
 		return true
 	}
 	for i := 0; i < nsteps && !run.Dead && !c.Violated(); i++ {
-		if mergeVariant && i > 0 && (r.Intn(5) == 0 || mergeSoon && r.Intn(2) == 0) && !run.WriteDead && run.Files() >= 2 {
-			mergeSoon = false
+		if mergeVariant && i > 0 && (r.Intn(5) == 0 || mergeSoon && r.Intn(2) == 0 || mergeNow) && !run.WriteDead && run.Files() >= 2 {
+			mergeSoon, mergeNow = false, false
 			c.Log("merge (%d files)", run.Files())
 			merr, p := mergeNoPanic(run)
 			if p != "" {
@@ -377,6 +378,13 @@ func runC12(c *CaseCtx) {
 				// a failed commit: nothing may have changed
 				if !run.CheckObs("after-io-fault") {
 					c.Note("%s", where)
+					break
+				}
+				if mergeVariant && inj.fired.Op == "write" && j >= 2 && r.Intn(2) == 0 {
+					// stop retrying: the records of this failed commit stay the newest ones for their keys, and the
+					// same process goes on (and merges) without a reopen in between
+					c.Stat("failed_commits_left_unretried", 1)
+					mergeNow = run.Files() >= 2 || r.Intn(2) == 0
 					break
 				}
 				if r.Intn(3) == 0 {
